@@ -2,6 +2,7 @@ package main
 
 import (
 	"sync"
+	"time"
 
 	"verifharness/internal/kit"
 )
@@ -44,6 +45,24 @@ func (r *Recorder) Stop() []kit.M {
 	out := r.evs
 	r.evs = nil
 	return out
+}
+
+// WaitFor polls until pred holds for the events recorded so far (harness-side synchronisation with the server's
+// progress inside a streaming call). Returns false on timeout.
+func (r *Recorder) WaitFor(pred func([]kit.M) bool, timeout time.Duration) bool {
+	deadline := time.Now().Add(timeout)
+	for {
+		r.mu.Lock()
+		ok := pred(r.evs)
+		r.mu.Unlock()
+		if ok {
+			return true
+		}
+		if time.Now().After(deadline) {
+			return false
+		}
+		time.Sleep(200 * time.Microsecond)
+	}
 }
 
 // Pause runs f with recording switched off (harness-side preparation inside a call).
